@@ -1,22 +1,76 @@
 //! C11: scalar operator semantics and the broadcasting law.
+//!
+//! One harness per (operator, operand shape); operands are symbolic doubles / booleans.  The
+//! reference is Rust's own IEEE operator applied per element in list order - operand *order*
+//! and the choice of arm are what the harnesses pin down.
 use crate::kproof;
 use crate::util::*;
 use blots_core::ast::*;
 use blots_core::expressions::evaluate_ast;
 use blots_core::values::*;
 
-/// scalar number x number: result bit-identical to the IEEE reference
+/// any double whose mantissa keeps only its top `bits` bits (sign, exponent, NaN/inf/zero and
+/// subnormal classes all still occur).  Used where two copies of a multiplier/divider circuit
+/// would otherwise have to be proved equivalent by the SAT solver.
+#[cfg(kani)]
+pub fn any_f64_m(bits: u32) -> f64 {
+    let x: u64 = kani::any();
+    f64::from_bits(x & !((1u64 << (52 - bits)) - 1))
+}
+
+pub fn ref_num(op: BinaryOp, a: f64, b: f64) -> Value {
+    use BinaryOp::*;
+    match op {
+        Add => Value::Number(a + b),
+        Subtract => Value::Number(a - b),
+        Multiply => Value::Number(a * b),
+        Divide => Value::Number(a / b),
+        Modulo => Value::Number(a % b),
+        Power => Value::Number(a.powf(b)),
+        Equal | DotEqual => Value::Bool(a == b),
+        NotEqual | DotNotEqual => Value::Bool(a != b),
+        Less | DotLess => Value::Bool(a < b),
+        LessEq | DotLessEq => Value::Bool(a <= b),
+        Greater | DotGreater => Value::Bool(a > b),
+        GreaterEq | DotGreaterEq => Value::Bool(a >= b),
+        Coalesce => Value::Number(a),
+        _ => Value::Null,
+    }
+}
+pub fn ref_bool(op: BinaryOp, a: bool, b: bool) -> Value {
+    use BinaryOp::*;
+    match op {
+        And | NaturalAnd => Value::Bool(a && b),
+        Or | NaturalOr => Value::Bool(a || b),
+        Equal | DotEqual => Value::Bool(a == b),
+        NotEqual | DotNotEqual => Value::Bool(a != b),
+        Less | DotLess => Value::Bool(!a & b),
+        LessEq | DotLessEq => Value::Bool(a <= b),
+        Greater | DotGreater => Value::Bool(a & !b),
+        GreaterEq | DotGreaterEq => Value::Bool(a >= b),
+        Coalesce => Value::Bool(a),
+        _ => Value::Null,
+    }
+}
+fn is_ordering(op: BinaryOp) -> bool {
+    use BinaryOp::*;
+    matches!(op, Less | LessEq | Greater | GreaterEq | DotLess | DotLessEq | DotGreater | DotGreaterEq)
+}
+
+// ------------------------------------------------------------------ scalar o scalar (numbers)
 macro_rules! c11_num_num {
-    ($name:ident, $op:expr, $reference:expr) => {
-        kproof!(noerr, 3, fn $name() {
-            let a: f64 = kani::any();
-            let b: f64 = kani::any();
+    ($name:ident, $op:expr, $gen:expr) => {
+        kproof!(noerr_nocall, 3, fn $name() {
+            let a: f64 = $gen;
+            let b: f64 = $gen;
+            if is_ordering($op) {
+                kani::assume(!a.is_nan() && !b.is_nan());
+            }
             let e = arena::binop($op, num(a), num(b));
             let heap = arena::heap();
             let r = evaluate_ast(&e, heap.clone(), arena::env(), 0, src());
-            let f: fn(f64, f64) -> Value = $reference;
             match r {
-                Ok(v) => assert!(same_value(v, f(a, b))),
+                Ok(v) => assert!(same_value(v, ref_num($op, a, b))),
                 Err(_) => panic!("scalar operator failed on two numbers"),
             }
             kani::cover!(true, "reach-end");
@@ -25,11 +79,407 @@ macro_rules! c11_num_num {
         });
     };
 }
-c11_num_num!(c11_q_num_add, BinaryOp::Add, |a, b| Value::Number(a + b));
-c11_num_num!(c11_q_num_sub, BinaryOp::Subtract, |a, b| Value::Number(a - b));
-c11_num_num!(c11_q_num_mul, BinaryOp::Multiply, |a, b| Value::Number(a * b));
-c11_num_num!(c11_q_num_div, BinaryOp::Divide, |a, b| Value::Number(a / b));
-c11_num_num!(c11_t_num_mod, BinaryOp::Modulo, |a, b| Value::Number(a % b));
-c11_num_num!(c11_q_num_eq, BinaryOp::Equal, |a, b| Value::Bool(a == b));
-c11_num_num!(c11_q_num_ne, BinaryOp::NotEqual, |a, b| Value::Bool(a != b));
-c11_num_num!(c11_q_num_coalesce, BinaryOp::Coalesce, |a, _b| Value::Number(a));
+c11_num_num!(c11_q_ss_add, BinaryOp::Add, any_f64_m(10));
+c11_num_num!(c11_q_ss_sub, BinaryOp::Subtract, any_f64_m(10));
+c11_num_num!(c11_t_ss_mul, BinaryOp::Multiply, any_f64_m(6));
+c11_num_num!(c11_t_ss_div, BinaryOp::Divide, any_f64_m(4));
+c11_num_num!(c11_t_ss_add_full, BinaryOp::Add, kani::any());
+c11_num_num!(c11_t_ss_sub_full, BinaryOp::Subtract, kani::any());
+c11_num_num!(c11_t_ss_mul_m12, BinaryOp::Multiply, any_f64_m(12));
+c11_num_num!(c11_t_ss_div_m8, BinaryOp::Divide, any_f64_m(8));
+c11_num_num!(c11_q_ss_eq, BinaryOp::Equal, kani::any());
+c11_num_num!(c11_t_ss_ne, BinaryOp::NotEqual, kani::any());
+c11_num_num!(c11_q_ss_lt, BinaryOp::Less, kani::any());
+c11_num_num!(c11_t_ss_le, BinaryOp::LessEq, kani::any());
+c11_num_num!(c11_t_ss_gt, BinaryOp::Greater, kani::any());
+c11_num_num!(c11_t_ss_ge, BinaryOp::GreaterEq, kani::any());
+c11_num_num!(c11_t_ss_coalesce_num, BinaryOp::Coalesce, kani::any());
+c11_num_num!(c11_t_ss_doteq, BinaryOp::DotEqual, kani::any());
+c11_num_num!(c11_t_ss_dotne, BinaryOp::DotNotEqual, kani::any());
+c11_num_num!(c11_t_ss_dotlt, BinaryOp::DotLess, kani::any());
+c11_num_num!(c11_t_ss_dotle, BinaryOp::DotLessEq, kani::any());
+c11_num_num!(c11_t_ss_dotgt, BinaryOp::DotGreater, kani::any());
+c11_num_num!(c11_t_ss_dotge, BinaryOp::DotGreaterEq, kani::any());
+
+// ------------------------------------------------------------------ scalar o scalar (booleans)
+macro_rules! c11_bool_bool {
+    ($name:ident, $op:expr) => {
+        kproof!(noerr_nocall, 3, fn $name() {
+            let a: bool = kani::any();
+            let b: bool = kani::any();
+            let e = arena::binop($op, Expr::Bool(a), Expr::Bool(b));
+            let heap = arena::heap();
+            let r = evaluate_ast(&e, heap.clone(), arena::env(), 0, src());
+            match r {
+                Ok(v) => assert!(same_value(v, ref_bool($op, a, b))),
+                Err(_) => panic!("scalar operator failed on two booleans"),
+            }
+            kani::cover!(true, "reach-end");
+            std::mem::forget(e);
+            std::mem::forget(heap);
+        });
+    };
+}
+c11_bool_bool!(c11_q_bb_and, BinaryOp::And);
+c11_bool_bool!(c11_t_bb_natural_and, BinaryOp::NaturalAnd);
+c11_bool_bool!(c11_t_bb_or, BinaryOp::Or);
+c11_bool_bool!(c11_q_bb_natural_or, BinaryOp::NaturalOr);
+c11_bool_bool!(c11_t_bb_eq, BinaryOp::Equal);
+c11_bool_bool!(c11_t_bb_lt, BinaryOp::Less);
+c11_bool_bool!(c11_t_bb_coalesce, BinaryOp::Coalesce);
+
+// ---------------------------------------------------------------- ?? with a null on the left
+kproof!(noerr_nocall, 3, fn c11_q_ss_coalesce_null_left() {
+    let b: f64 = kani::any();
+    let e = arena::binop(BinaryOp::Coalesce, Expr::Null, num(b));
+    let heap = arena::heap();
+    match evaluate_ast(&e, heap.clone(), arena::env(), 0, src()) {
+        Ok(v) => assert!(same_value(v, Value::Number(b))),
+        Err(_) => panic!("?? failed"),
+    }
+    let e2 = arena::binop(BinaryOp::Coalesce, num(b), Expr::Null);
+    match evaluate_ast(&e2, heap.clone(), arena::env(), 0, src()) {
+        Ok(v) => assert!(same_value(v, Value::Number(b))),
+        Err(_) => panic!("?? failed"),
+    }
+    let e3 = arena::binop(BinaryOp::Coalesce, Expr::Null, Expr::Null);
+    match evaluate_ast(&e3, heap.clone(), arena::env(), 0, src()) {
+        Ok(v) => assert!(same_value(v, Value::Null)),
+        Err(_) => panic!("?? failed"),
+    }
+    kani::cover!(true, "reach-end");
+    std::mem::forget((e, e2, e3));
+    std::mem::forget(heap);
+});
+
+// ------------------------------------------------------- type errors: fails exactly when ...
+// `cut` harness: every path that builds an anyhow type error is dropped; any path that survives
+// must have returned Err (a RuntimeError built directly) - an Ok result is the violation.
+macro_rules! c11_type_error {
+    ($name:ident, $op:expr, $l:expr, $r:expr) => {
+        kproof!(cut_nocall, 3, fn $name() {
+            let a: f64 = kani::any();
+            let b: bool = kani::any();
+            kani::cover!(true, "reach-call");
+            let l: fn(f64, bool) -> Expr = $l;
+            let r: fn(f64, bool) -> Expr = $r;
+            let e = arena::binop($op, l(a, b), r(a, b));
+            let heap = arena::heap();
+            let res = evaluate_ast(&e, heap.clone(), arena::env(), 0, src());
+            assert!(res.is_err());
+            std::mem::forget(e);
+            std::mem::forget(heap);
+        });
+    };
+}
+c11_type_error!(c11_q_err_add_num_bool, BinaryOp::Add, |a, _| num(a), |_, b| Expr::Bool(b));
+c11_type_error!(c11_t_err_sub_bool_num, BinaryOp::Subtract, |_, b| Expr::Bool(b), |a, _| num(a));
+c11_type_error!(c11_t_err_mul_null_num, BinaryOp::Multiply, |_, _| Expr::Null, |a, _| num(a));
+c11_type_error!(c11_t_err_div_num_null, BinaryOp::Divide, |a, _| num(a), |_, _| Expr::Null);
+c11_type_error!(c11_t_err_and_num_bool, BinaryOp::And, |a, _| num(a), |_, b| Expr::Bool(b));
+c11_type_error!(c11_t_err_or_bool_null, BinaryOp::NaturalOr, |_, b| Expr::Bool(b), |_, _| Expr::Null);
+c11_type_error!(c11_q_err_lt_num_bool, BinaryOp::Less, |a, _| num(a), |_, b| Expr::Bool(b));
+c11_type_error!(c11_t_err_ge_null_null, BinaryOp::GreaterEq, |_, _| Expr::Null, |_, _| Expr::Null);
+c11_type_error!(c11_t_err_dotlt_bool_num, BinaryOp::DotLess, |_, b| Expr::Bool(b), |a, _| num(a));
+
+// ------------------------------------------------------------------ broadcasting, numbers
+#[derive(Clone, Copy)]
+pub enum Shape {
+    ListScalar,
+    ScalarList,
+    ListList,
+}
+
+/// evaluate `L op s`, `s op L` or `L op M` with L=[a0,a1], M=[b0,b1], s=b0 and compare with the
+/// per-element reference in list order
+macro_rules! c11_bcast_num {
+    ($name:ident, $op:expr, $shape:expr, $gen:expr) => {
+        kproof!(noerr_nocall, 4, fn $name() {
+            let a0: f64 = $gen;
+            let a1: f64 = $gen;
+            let b0: f64 = $gen;
+            let b1: f64 = $gen;
+            if is_ordering($op) {
+                kani::assume(!a0.is_nan() && !a1.is_nan() && !b0.is_nan() && !b1.is_nan());
+            }
+            let (e, w0, w1) = match $shape {
+                Shape::ListScalar => (
+                    arena::binop($op, arena::list2(num(a0), num(a1)), num(b0)),
+                    ref_num($op, a0, b0),
+                    ref_num($op, a1, b0),
+                ),
+                Shape::ScalarList => (
+                    arena::binop($op, num(b0), arena::list2(num(a0), num(a1))),
+                    ref_num($op, b0, a0),
+                    ref_num($op, b0, a1),
+                ),
+                Shape::ListList => (
+                    arena::binop($op, arena::list2(num(a0), num(a1)), arena::list2(num(b0), num(b1))),
+                    ref_num($op, a0, b0),
+                    ref_num($op, a1, b1),
+                ),
+            };
+            let heap = arena::heap();
+            let r = evaluate_ast(&e, heap.clone(), arena::env(), 0, src());
+            match r {
+                Ok(v) => match read_list(v, &heap) {
+                    Some((n, el)) => {
+                        assert!(n == 2);
+                        assert!(same_value(el[0], w0));
+                        assert!(same_value(el[1], w1));
+                    }
+                    None => panic!("broadcast result is not a list"),
+                },
+                Err(_) => panic!("broadcast failed on numbers"),
+            }
+            kani::cover!(true, "reach-end");
+            std::mem::forget(e);
+            std::mem::forget(heap);
+        });
+    };
+}
+c11_bcast_num!(c11_q_ls_sub, BinaryOp::Subtract, Shape::ListScalar, any_f64_m(6));
+c11_bcast_num!(c11_q_sl_sub, BinaryOp::Subtract, Shape::ScalarList, any_f64_m(6));
+c11_bcast_num!(c11_q_ll_sub, BinaryOp::Subtract, Shape::ListList, any_f64_m(6));
+c11_bcast_num!(c11_t_ls_add, BinaryOp::Add, Shape::ListScalar, any_f64_m(6));
+c11_bcast_num!(c11_t_sl_add, BinaryOp::Add, Shape::ScalarList, any_f64_m(6));
+c11_bcast_num!(c11_t_ll_add, BinaryOp::Add, Shape::ListList, any_f64_m(6));
+c11_bcast_num!(c11_t_ls_mul, BinaryOp::Multiply, Shape::ListScalar, any_f64_m(4));
+c11_bcast_num!(c11_t_sl_mul, BinaryOp::Multiply, Shape::ScalarList, any_f64_m(4));
+c11_bcast_num!(c11_t_ll_mul, BinaryOp::Multiply, Shape::ListList, any_f64_m(4));
+c11_bcast_num!(c11_t_ls_div, BinaryOp::Divide, Shape::ListScalar, any_f64_m(3));
+c11_bcast_num!(c11_q_sl_div, BinaryOp::Divide, Shape::ScalarList, any_f64_m(3));
+c11_bcast_num!(c11_t_ll_div, BinaryOp::Divide, Shape::ListList, any_f64_m(3));
+c11_bcast_num!(c11_t_ls_sub_full, BinaryOp::Subtract, Shape::ListScalar, kani::any());
+c11_bcast_num!(c11_t_sl_sub_full, BinaryOp::Subtract, Shape::ScalarList, kani::any());
+c11_bcast_num!(c11_t_ll_sub_full, BinaryOp::Subtract, Shape::ListList, kani::any());
+c11_bcast_num!(c11_t_ls_lt, BinaryOp::Less, Shape::ListScalar, kani::any());
+c11_bcast_num!(c11_t_sl_lt, BinaryOp::Less, Shape::ScalarList, kani::any());
+c11_bcast_num!(c11_q_ll_lt, BinaryOp::Less, Shape::ListList, kani::any());
+c11_bcast_num!(c11_t_ls_le, BinaryOp::LessEq, Shape::ListScalar, kani::any());
+c11_bcast_num!(c11_t_sl_le, BinaryOp::LessEq, Shape::ScalarList, kani::any());
+c11_bcast_num!(c11_t_ll_le, BinaryOp::LessEq, Shape::ListList, kani::any());
+c11_bcast_num!(c11_t_ls_gt, BinaryOp::Greater, Shape::ListScalar, kani::any());
+c11_bcast_num!(c11_q_sl_gt, BinaryOp::Greater, Shape::ScalarList, kani::any());
+c11_bcast_num!(c11_t_ll_gt, BinaryOp::Greater, Shape::ListList, kani::any());
+c11_bcast_num!(c11_t_ls_ge, BinaryOp::GreaterEq, Shape::ListScalar, kani::any());
+c11_bcast_num!(c11_t_sl_ge, BinaryOp::GreaterEq, Shape::ScalarList, kani::any());
+c11_bcast_num!(c11_t_ll_ge, BinaryOp::GreaterEq, Shape::ListList, kani::any());
+c11_bcast_num!(c11_q_ls_eq, BinaryOp::Equal, Shape::ListScalar, kani::any());
+c11_bcast_num!(c11_t_sl_eq, BinaryOp::Equal, Shape::ScalarList, kani::any());
+c11_bcast_num!(c11_t_ll_eq, BinaryOp::Equal, Shape::ListList, kani::any());
+c11_bcast_num!(c11_t_ls_ne, BinaryOp::NotEqual, Shape::ListScalar, kani::any());
+c11_bcast_num!(c11_t_sl_ne, BinaryOp::NotEqual, Shape::ScalarList, kani::any());
+c11_bcast_num!(c11_t_ll_ne, BinaryOp::NotEqual, Shape::ListList, kani::any());
+
+// ------------------------------------------------------------------ broadcasting, booleans
+macro_rules! c11_bcast_bool {
+    ($name:ident, $op:expr, $shape:expr) => {
+        kproof!(noerr_nocall, 4, fn $name() {
+            let a0: bool = kani::any();
+            let a1: bool = kani::any();
+            let b0: bool = kani::any();
+            let b1: bool = kani::any();
+            let (e, w0, w1) = match $shape {
+                Shape::ListScalar => (
+                    arena::binop($op, arena::list2(Expr::Bool(a0), Expr::Bool(a1)), Expr::Bool(b0)),
+                    ref_bool($op, a0, b0),
+                    ref_bool($op, a1, b0),
+                ),
+                Shape::ScalarList => (
+                    arena::binop($op, Expr::Bool(b0), arena::list2(Expr::Bool(a0), Expr::Bool(a1))),
+                    ref_bool($op, b0, a0),
+                    ref_bool($op, b0, a1),
+                ),
+                Shape::ListList => (
+                    arena::binop($op, arena::list2(Expr::Bool(a0), Expr::Bool(a1)), arena::list2(Expr::Bool(b0), Expr::Bool(b1))),
+                    ref_bool($op, a0, b0),
+                    ref_bool($op, a1, b1),
+                ),
+            };
+            let heap = arena::heap();
+            let r = evaluate_ast(&e, heap.clone(), arena::env(), 0, src());
+            match r {
+                Ok(v) => match read_list(v, &heap) {
+                    Some((n, el)) => {
+                        assert!(n == 2);
+                        assert!(same_value(el[0], w0));
+                        assert!(same_value(el[1], w1));
+                    }
+                    None => panic!("broadcast result is not a list"),
+                },
+                Err(_) => panic!("broadcast failed on booleans"),
+            }
+            kani::cover!(true, "reach-end");
+            std::mem::forget(e);
+            std::mem::forget(heap);
+        });
+    };
+}
+c11_bcast_bool!(c11_q_ls_and, BinaryOp::And, Shape::ListScalar);
+c11_bcast_bool!(c11_t_sl_and, BinaryOp::And, Shape::ScalarList);
+c11_bcast_bool!(c11_t_ll_and, BinaryOp::And, Shape::ListList);
+c11_bcast_bool!(c11_t_ls_natural_and, BinaryOp::NaturalAnd, Shape::ListScalar);
+c11_bcast_bool!(c11_t_sl_natural_or, BinaryOp::NaturalOr, Shape::ScalarList);
+c11_bcast_bool!(c11_t_ll_or, BinaryOp::Or, Shape::ListList);
+c11_bcast_bool!(c11_t_ls_or, BinaryOp::Or, Shape::ListScalar);
+c11_bcast_bool!(c11_t_sl_lt_bool, BinaryOp::Less, Shape::ScalarList);
+
+// ------------------------------------------------------------------ ?? broadcasts per element
+kproof!(noerr_nocall, 4, fn c11_q_ls_coalesce() {
+    let a: f64 = kani::any();
+    let s: f64 = kani::any();
+    // [null, a] ?? s  ==  [s, a]
+    let e = arena::binop(BinaryOp::Coalesce, arena::list2(Expr::Null, num(a)), num(s));
+    let heap = arena::heap();
+    match evaluate_ast(&e, heap.clone(), arena::env(), 0, src()) {
+        Ok(v) => match read_list(v, &heap) {
+            Some((n, el)) => {
+                assert!(n == 2);
+                assert!(same_value(el[0], Value::Number(s)));
+                assert!(same_value(el[1], Value::Number(a)));
+            }
+            None => panic!("not a list"),
+        },
+        Err(_) => panic!("?? broadcast failed"),
+    }
+    kani::cover!(true, "reach-end");
+    std::mem::forget(e);
+    std::mem::forget(heap);
+});
+kproof!(noerr_nocall, 4, fn c11_q_sl_coalesce() {
+    let a: f64 = kani::any();
+    let s: f64 = kani::any();
+    // null ?? [a, null] == [a, null] ;  s ?? [a, null] == [s, s]
+    let e = arena::binop(BinaryOp::Coalesce, Expr::Null, arena::list2(num(a), Expr::Null));
+    let heap = arena::heap();
+    match evaluate_ast(&e, heap.clone(), arena::env(), 0, src()) {
+        Ok(v) => match read_list(v, &heap) {
+            Some((n, el)) => {
+                assert!(n == 2);
+                assert!(same_value(el[0], Value::Number(a)));
+                assert!(same_value(el[1], Value::Null));
+            }
+            None => panic!("not a list"),
+        },
+        Err(_) => panic!("?? broadcast failed"),
+    }
+    let e2 = arena::binop(BinaryOp::Coalesce, num(s), arena::list2(num(a), Expr::Null));
+    match evaluate_ast(&e2, heap.clone(), arena::env(), 0, src()) {
+        Ok(v) => match read_list(v, &heap) {
+            Some((n, el)) => {
+                assert!(n == 2);
+                assert!(same_value(el[0], Value::Number(s)));
+                assert!(same_value(el[1], Value::Number(s)));
+            }
+            None => panic!("not a list"),
+        },
+        Err(_) => panic!("?? broadcast failed"),
+    }
+    kani::cover!(true, "reach-end");
+    std::mem::forget((e, e2));
+    std::mem::forget(heap);
+});
+
+// -------------------------------------------- fails exactly when lengths differ / element fails
+macro_rules! c11_len_mismatch {
+    ($name:ident, $op:expr) => {
+        kproof!(cut_nocall, 4, fn $name() {
+            let a: f64 = kani::any();
+            let b: f64 = kani::any();
+            kani::cover!(true, "reach-call");
+            let heap = arena::heap();
+            let e = arena::binop($op, arena::list2(num(a), num(b)), arena::list1(num(b)));
+            assert!(evaluate_ast(&e, heap.clone(), arena::env(), 0, src()).is_err());
+            let e2 = arena::binop($op, arena::list0(), arena::list1(num(b)));
+            assert!(evaluate_ast(&e2, heap.clone(), arena::env(), 0, src()).is_err());
+            std::mem::forget((e, e2));
+            std::mem::forget(heap);
+        });
+    };
+}
+c11_len_mismatch!(c11_q_ll_len_mismatch_add, BinaryOp::Add);
+c11_len_mismatch!(c11_t_ll_len_mismatch_lt, BinaryOp::Less);
+c11_len_mismatch!(c11_t_ll_len_mismatch_eq, BinaryOp::Equal);
+c11_len_mismatch!(c11_t_ll_len_mismatch_and, BinaryOp::And);
+c11_len_mismatch!(c11_t_ll_len_mismatch_coalesce, BinaryOp::Coalesce);
+
+macro_rules! c11_elem_error {
+    ($name:ident, $op:expr, $shape:expr) => {
+        kproof!(cut_nocall, 4, fn $name() {
+            let a: f64 = kani::any();
+            let s: f64 = kani::any();
+            let t: bool = kani::any();
+            kani::cover!(true, "reach-call");
+            let heap = arena::heap();
+            // second element has the wrong type for an arithmetic / ordering operator
+            let e = match $shape {
+                Shape::ListScalar => arena::binop($op, arena::list2(num(a), Expr::Bool(t)), num(s)),
+                Shape::ScalarList => arena::binop($op, num(s), arena::list2(num(a), Expr::Bool(t))),
+                Shape::ListList => arena::binop($op, arena::list2(num(a), Expr::Bool(t)), arena::list2(num(s), num(s))),
+            };
+            assert!(evaluate_ast(&e, heap.clone(), arena::env(), 0, src()).is_err());
+            std::mem::forget(e);
+            std::mem::forget(heap);
+        });
+    };
+}
+c11_elem_error!(c11_q_ls_elem_error_sub, BinaryOp::Subtract, Shape::ListScalar);
+c11_elem_error!(c11_t_sl_elem_error_add, BinaryOp::Add, Shape::ScalarList);
+c11_elem_error!(c11_t_ll_elem_error_mul, BinaryOp::Multiply, Shape::ListList);
+c11_elem_error!(c11_t_ls_elem_error_lt, BinaryOp::Less, Shape::ListScalar);
+c11_elem_error!(c11_t_sl_elem_error_ge, BinaryOp::GreaterEq, Shape::ScalarList);
+
+// ------------------------------------------------------------------ empty lists broadcast to []
+kproof!(noerr_nocall, 4, fn c11_q_empty_list_broadcast() {
+    let s: f64 = kani::any();
+    let heap = arena::heap();
+    let e = arena::binop(BinaryOp::Subtract, arena::list0(), num(s));
+    match evaluate_ast(&e, heap.clone(), arena::env(), 0, src()) {
+        Ok(v) => assert!(matches!(read_list(v, &heap), Some((0, _)))),
+        Err(_) => panic!("[] - s failed"),
+    }
+    let e2 = arena::binop(BinaryOp::Less, arena::list0(), arena::list0());
+    match evaluate_ast(&e2, heap.clone(), arena::env(), 0, src()) {
+        Ok(v) => assert!(matches!(read_list(v, &heap), Some((0, _)))),
+        Err(_) => panic!("[] < [] failed"),
+    }
+    kani::cover!(true, "reach-end");
+    std::mem::forget((e, e2));
+    std::mem::forget(heap);
+});
+
+// ------------------------------------------------------------ dot comparisons never broadcast
+macro_rules! c11_dot_no_broadcast {
+    ($name:ident, $op:expr) => {
+        kproof!(cut_nocall, 4, fn $name() {
+            let a: f64 = kani::any();
+            let b: f64 = kani::any();
+            let c: f64 = kani::any();
+            let d: f64 = kani::any();
+            kani::assume(!a.is_nan() && !b.is_nan() && !c.is_nan() && !d.is_nan());
+            kani::cover!(true, "reach-call");
+            let heap = arena::heap();
+            // list vs list: a single boolean (never a list)
+            let e = arena::binop($op, arena::list2(num(a), num(b)), arena::list2(num(c), num(d)));
+            match evaluate_ast(&e, heap.clone(), arena::env(), 0, src()) {
+                Ok(v) => assert!(matches!(v, Value::Bool(_))),
+                Err(_) => panic!("dot comparison of two number lists failed"),
+            }
+            // list vs scalar: never a list (false for .==, true for .!=, error for the orderings)
+            let e2 = arena::binop($op, arena::list2(num(a), num(b)), num(c));
+            match evaluate_ast(&e2, heap.clone(), arena::env(), 0, src()) {
+                Ok(v) => assert!(matches!(v, Value::Bool(_))),
+                Err(_) => {}
+            }
+            std::mem::forget((e, e2));
+            std::mem::forget(heap);
+        });
+    };
+}
+c11_dot_no_broadcast!(c11_q_dot_eq_no_broadcast, BinaryOp::DotEqual);
+c11_dot_no_broadcast!(c11_t_dot_lt_no_broadcast, BinaryOp::DotLess);
+c11_dot_no_broadcast!(c11_t_dot_ne_no_broadcast, BinaryOp::DotNotEqual);
+c11_dot_no_broadcast!(c11_t_dot_le_no_broadcast, BinaryOp::DotLessEq);
+c11_dot_no_broadcast!(c11_t_dot_gt_no_broadcast, BinaryOp::DotGreater);
+c11_dot_no_broadcast!(c11_t_dot_ge_no_broadcast, BinaryOp::DotGreaterEq);
